@@ -209,7 +209,11 @@ private:
       op->stopSource_.request_stop();
 
       if (op->activeOpCount_.fetch_sub(1, std::memory_order_acq_rel) == 1) {
-        // we're the last owner of the operation so deliver its result now
+        // we're the last owner of the operation so deliver its result now;
+        // deregister this callback first (destroying *this) because the
+        // receiver's stop token must not be used after the receiver has been
+        // completed
+        op->stopCallback_.reset();
         op->deliver_result();
       }
     }
